@@ -242,6 +242,7 @@ class Metadata(CbMixin, ProgMixin):
             path to the .torrent file.
         """
         self.path = os.path.abspath(path)
+        self.protected = {os.path.realpath(self.path)}
         self.name = None
         self.piece_length = 1
         self.meta_version = 1
@@ -397,6 +398,8 @@ class Metadata(CbMixin, ProgMixin):
                 continue
             candidates = sorted(verified.get(entry["full"], ()))
             dest_path = os.path.realpath(os.path.join(dest, entry["full"]))
+            if dest_path in self.protected:
+                continue
             if candidates and _is_within(dest, dest_path):
                 copypath(candidates[0], dest_path)
                 self.cb(entry["full"], dest_path, self.num_pieces)
@@ -427,6 +430,8 @@ class Metadata(CbMixin, ProgMixin):
                     if entry["root"] == hasher.root:
                         dest_path = os.path.realpath(
                             os.path.join(dest, entry["full"]))
+                        if dest_path in self.protected:
+                            break
                         if _is_within(dest, dest_path):
                             copypath(path, dest_path)
                             self._update()
@@ -528,6 +533,11 @@ class Assembler(CbMixin):
         for meta in self.metafiles:
             filenames |= meta.filenames
         self.filemap = _index_contents(self.contents, filenames)
+        protected = set()
+        for meta in self.metafiles:
+            protected |= meta.protected
+        for meta in self.metafiles:
+            meta.protected = protected
 
     def _callback(self, filename: str, dest: str, num_pieces: int):
         """
